@@ -107,7 +107,7 @@ def run(ctx, replay=None):
     ctx.notes['exhaustive_family'] = f'all {exhaustive_count} statement lists of length <= {n_exh} over the {len(alpha)}-symbol alphabet of MC_Jump'
     for need in ('done', 'label', 'limit'):
         if not statuses.get(need):
-            raise tlc.MachineryError(f'vacuity: no run ended with status {need}')
+            ctx.vacuous(f'vacuity: no run ended with status {need}')
     return F.finish(ctx, rule='statement lists over the MC_Jump alphabet (exhaustive to length n, sampled beyond) plus '
                     'random jump-level models; each executed twice on one model object by the real execute_script and '
                     'validated step by step against BareCore; non-trivial = contains a jump or a function; distinct by '
